@@ -440,7 +440,7 @@ def stmt_index(body, pred):
 
 def wrapper_facts(fn):
     """facts about one `wrapped_fn(*args, **kwargs)` definition"""
-    out = {"popInFinally": "unknown", "bindBeforePush": "unknown", "disableTestFirst": "unknown"}
+    out = {"popInFinally": "unknown", "bindBeforePush": "unknown", "disableTestFirst": "unknown", "pushSeesDefaults": False}
     body = [st for st in fn.body if not (isinstance(st, ast.Assign) and isinstance(st.targets[0], ast.Name) and st.targets[0].id == "__tracebackhide__")]
     i_bind = stmt_index(body, lambda st: bool(calls_in([st], "bind")) and not isinstance(st, (ast.Try, ast.If)))
     i_push = stmt_index(body, lambda st: bool(calls_in([st], "push_shape_memo")) and not isinstance(st, (ast.Try, ast.If)))
@@ -449,6 +449,17 @@ def wrapper_facts(fn):
         out["popInFinally"] = i_try is not None and i_try == i_push + 1
         if i_bind is not None:
             out["bindBeforePush"] = i_bind < i_push
+            # `b = <signature>.bind(*args, **kwargs)`, then unconditionally `b.apply_defaults()`, then `push_shape_memo(b.arguments, ...)`:
+            # what `{name}` axes are evaluated against is the full argument list, defaults included
+            bs = body[i_bind]
+            if isinstance(bs, ast.Assign) and len(bs.targets) == 1 and isinstance(bs.targets[0], ast.Name) and isinstance(bs.value, ast.Call) \
+                    and isinstance(bs.value.func, ast.Attribute) and bs.value.func.attr == "bind" and ast.unparse(bs.value)[ast.unparse(bs.value).index("("):] == "(*args, **kwargs)":
+                b = bs.targets[0].id
+                between = body[i_bind + 1:i_push]
+                applied = any(isinstance(st, ast.Expr) and ast.unparse(st.value) == f"{b}.apply_defaults()" for st in between)
+                rebound = any(isinstance(n, ast.Name) and n.id == b and isinstance(n.ctx, ast.Store) for st in between for n in ast.walk(st))
+                pushes = calls_in([body[i_push]], "push_shape_memo")
+                out["pushSeesDefaults"] = applied and not rebound and len(pushes) == 1 and len(pushes[0].args) >= 1 and ast.unparse(pushes[0].args[0]) == f"{b}.arguments"
     i_dis = stmt_index(body, lambda st: isinstance(st, ast.If) and "jaxtyping_disable" in names_in(st.test))
     if i_dis is not None:
         st = body[i_dis]
@@ -473,12 +484,19 @@ def decorator_skel(facts):
     if jt is None:
         return
     wrappers = [n for n in ast.walk(jt) if isinstance(n, ast.FunctionDef) and n.name == "wrapped_fn"]
+    from inline import inline_helpers
+
+    sees = []
     for fn in wrappers:
         f = wrapper_facts(fn)
+        if f["bindBeforePush"] == "unknown":
+            f = wrapper_facts(inline_helpers(fn, dec))
+        sees.append(f["pushSeesDefaults"])
         if calls_in([fn], "wrapped_fn_impl"):
             w["newPopInFinally"], w["newBindBeforePush"], w["disableTestFirst"] = f["popInFinally"], f["bindBeforePush"], f["disableTestFirst"]
         else:
             w["oldPopInFinally"], w["oldBindBeforePush"] = f["popInFinally"], f["bindBeforePush"]
+    facts["push_sees_defaults"] = len(sees) == 2 and all(sees)
     ctx = find_def(dec, "_JaxtypingContext", "__exit__")
     if ctx is not None:
         w["ctxExitPopsAlways"] = any(isinstance(st, ast.Expr) and call_name(st.value) == "pop_shape_memo" for st in ctx.body) and not any(isinstance(st, ast.Return) for st in ctx.body[:1])
@@ -602,6 +620,8 @@ def oldBindBeforePush : Option Bool := {ob(ws['oldBindBeforePush'])}
 def disableTestFirst : Option Bool := {ob(ws['disableTestFirst'])}
 def annErrFirst : Option Bool := {ob(ws['annErrFirst'])}
 def messageCurrent : Option Bool := {ob(ws['messageCurrent'])}
+/-- both wrappers push `bound.arguments` after an unconditional `bound.apply_defaults()` on `bind(*args, **kwargs)` -/
+def pushSeesDefaults : Bool := {lean_bool(facts.get('push_sees_defaults', False))}
 /-- number of syntactic calls of the wrapped function inside `wrapped_fn_impl` -/
 def implFnCalls : Nat := {facts.get('impl_fn_calls', 0)}
 /-- the argument lists of those calls, as written -/
@@ -877,12 +897,72 @@ def is_cache_patch(e, cls):
     return False
 
 
+def transform_dominates(fn):
+    """True iff on every path through `fn` that reaches a `return`, a statement calling
+    `JaxtypingTransformer(...).visit(...)` has run before. Paths that end in `raise` do not count."""
+
+    def has_visit(stmt):
+        for c in ast.walk(stmt):
+            if isinstance(c, ast.Call) and isinstance(c.func, ast.Attribute) and c.func.attr == "visit" and "JaxtypingTransformer" in ast.unparse(c.func.value):
+                return True
+        # `t = JaxtypingTransformer(...)` ... `t.visit(tree)`
+        names = {n.targets[0].id for n in ast.walk(fn) if isinstance(n, ast.Assign) and len(n.targets) == 1 and isinstance(n.targets[0], ast.Name)
+                 and call_name(n.value) == "JaxtypingTransformer"}
+        return any(isinstance(c, ast.Call) and isinstance(c.func, ast.Attribute) and c.func.attr == "visit" and isinstance(c.func.value, ast.Name)
+                   and c.func.value.id in names for c in ast.walk(stmt))
+
+    bad = []
+
+    def block(stmts, done):
+        """returns the state after the block: True / False, or None when the block never falls through"""
+        for s in stmts:
+            if done is None:
+                break
+            if isinstance(s, ast.Return):
+                if not (done or (s.value is not None and has_visit(s))):
+                    bad.append(s.lineno)
+                return None
+            if isinstance(s, ast.Raise):
+                return None
+            if isinstance(s, ast.If):
+                a, b = block(s.body, done), block(s.orelse, done)
+                done = b if a is None else a if b is None else (a and b)
+            elif isinstance(s, (ast.With, ast.AsyncWith)):
+                done = block(s.body, done or any(has_visit(i.context_expr) for i in s.items))
+            elif isinstance(s, ast.Try):
+                a = block(s.body, done)
+                outs = [] if a is None else [block(s.orelse, a)]
+                # a handler may be entered before the body has done anything
+                outs += [block(hd.body, done) for hd in s.handlers]
+                outs = [o for o in outs if o is not None]
+                done = None if not outs else all(outs)
+                if s.finalbody:
+                    f = block(s.finalbody, bool(done))
+                    done = None if (f is None or done is None) else (done or f)
+            elif isinstance(s, (ast.For, ast.While, ast.AsyncFor)):
+                block(s.body, done)
+                block(s.orelse, done)
+            elif isinstance(s, (ast.FunctionDef, ast.AsyncFunctionDef, ast.ClassDef)):
+                pass
+            elif has_visit(s):
+                done = True
+            elif any(isinstance(r, ast.Return) for r in ast.walk(s)):
+                bad.append(s.lineno)
+        return done
+
+    if fn is None:
+        return False
+    block(fn.body, False)
+    return not bad and any(has_visit(s) for s in ast.walk(fn))
+
+
 def hook_facts(facts):
     tree = parse("_import_hook.py")
     h = {
         "defDecorator": "unknown", "classDecorator": "unknown", "copiesLocation": False, "importRule": "unknown", "visitors": [],
         "shouldInstrument": "unknown", "insertsAtFront": False, "uninstallRemoves": False, "onlySourceLoaders": False,
         "patchScope": "unknown", "tagHasChecker": False, "tagVersion": 0, "compileIsolated": False, "keyChain": "unknown",
+        "alwaysTransforms": False,
     }
     facts["hook"] = h
     tr = find_def(tree, "JaxtypingTransformer")
@@ -938,6 +1018,12 @@ def hook_facts(facts):
 
         own_future = any(isinstance(n, ast.ImportFrom) and n.module == "__future__" for n in tree.body)
         h["compileIsolated"] = len(comps) >= 2 and (all(isolated(c) for c in comps) or not own_future) and all(isolated(c) for c in comps)
+    # every code object `source_to_code` returns has been through the transformer: the `JaxtypingTransformer(...).visit(...)`
+    # statement dominates every `return` (no handler, branch or early exit that compiles the module as it was read)
+    if stc is not None:
+        from inline import inline_helpers
+
+        h["alwaysTransforms"] = transform_dominates(inline_helpers(stc, tree, find_def(tree, "_JaxtypingLoader")))
     # one key for everything: the decorator written into the module looks the typechecker up under `self.hash`, the
     # table is filled under `self.hash`, `self.hash` is the md5 of the typechecker string ("0" for None), and the same
     # value names the bytecode file
@@ -1071,6 +1157,7 @@ def hookClassDecorator : String := {lean_str(h['classDecorator'])}
 def hookCopiesLocation : Bool := {lean_bool(h['copiesLocation'])}
 /-- both `compile` calls of the loader pass `dont_inherit=True` -/
 def hookCompileIsolated : Bool := {lean_bool(h['compileIsolated'])}
+def hookAlwaysTransforms : Bool := {lean_bool(h['alwaysTransforms'])}
 def hookImportRule : String := {lean_str(h['importRule'])}
 def hookVisitors : List String := {lean_list([lean_str(v) for v in h['visitors']])}
 def hookShouldInstrument : String := {lean_str(h['shouldInstrument'])}
